@@ -119,17 +119,19 @@ async fn plot(_data: web::Data<AppState>) -> impl Responder {
 #[get("/table/{tablename}")]
 async fn table_handler(path: web::Path<String>, data: web::Data<AppState>) -> impl Responder {
     // TODO: sql injection
-    let cols = data
-        .db
-        .run_query(
-            &format!("SELECT * FROM \"{}\" LIMIT 0", path.as_str()),
-            false,
-            true,
-            vec![],
-        )
-        .await
-        .unwrap()
-        .colnames;
+    let cols = match map_err_response(
+        data.db
+            .run_query(
+                &format!("SELECT * FROM \"{}\" LIMIT 0", path.as_str()),
+                false,
+                true,
+                vec![],
+            )
+            .await,
+    ) {
+        Ok(result) => result.colnames,
+        Err(err) => return err,
+    };
 
     let mut context = Context::new();
     context.insert("columns", &cols.join(", "));
@@ -191,11 +193,14 @@ async fn query_data(_data: web::Data<AppState>) -> impl Responder {
 #[post("/query")]
 async fn query(data: web::Data<AppState>, req_body: web::Json<QueryRequest>) -> impl Responder {
     log::debug!("Query: {:?}", req_body);
-    let result = data
-        .db
-        .run_query(&req_body.query, false, true, vec![])
-        .await
-        .unwrap();
+    let result = match map_err_response(
+        data.db
+            .run_query(&req_body.query, false, true, vec![])
+            .await,
+    ) {
+        Ok(result) => result,
+        Err(err) => return err,
+    };
 
     let response = json!({
         "colnames": result.colnames,
